@@ -23,7 +23,7 @@ TRUSTED = []
 MUTANTS = [
     {"name": "lpop-not-blocking", "file": "src/proxy/command.rs", "old": "            | DataCmdType::Lpop\n", "new": "", "expect": "C03.D4:LPOP"},
     {"name": "delete-before-forward", "file": "src/migration/scan_migration.rs", "old": "            let dst_client_cache =\n                Self::forward_entries(dst_address, dst_client, client_factory, entries).await;\n            dst_client = Some(dst_client_cache);\n\n            Self::delete_keys(src_client, transferred_keys).await?;", "new": "            Self::delete_keys(src_client, transferred_keys).await?;\n            let dst_client_cache =\n                Self::forward_entries(dst_address, dst_client, client_factory, entries).await;\n            dst_client = Some(dst_client_cache);\n", "expect": "C03.D1"},
-    {"name": "scan-always-advances", "file": "src/migration/scan_migration.rs", "old": "        if need_retry {\n            // Some keys are missed in this round.\n            // Retry the last index again.\n            Ok((index, false, dst_client))\n        } else {\n            Ok((next_index, next_index == 0, dst_client))\n        }", "new": "        let _ = need_retry;\n        Ok((next_index, next_index == 0, dst_client))", "expect": "C03.D1:scan-cursor"},
+    {"name": "scan-always-advances", "file": "src/migration/scan_migration.rs", "old": "        if need_retry {\n            // Some keys are missed in this round.\n            // Retry the last index again.\n            Ok((index, false, dst_client))\n        } else {\n            Ok((next_index, next_index == 0, dst_client))\n        }", "new": "        let _ = need_retry;\n        Ok((next_index, next_index == 0, dst_client))", "expect": "C03.D1"},
     {"name": "importing-precheck-serves", "file": "src/migration/scan_task.rs", "old": "        if self.state.get_state() == MigrationState::PreCheck {\n            return handle_redirection(\n                cmd_task,\n                self.meta.src_proxy_address.clone(),", "new": "        if self.state.get_state() == MigrationState::SwitchCommitted {\n            return handle_redirection(\n                cmd_task,\n                self.meta.src_proxy_address.clone(),", "expect": "C03.D5"},
     {"name": "umsync-error-falls-through", "file": "src/proxy/migration_backend.rs", "old": "                    error!(\"Invalid reply of UMSYNC {:?}\", err);\n                    // drop the lock here\n                    let task = state.into_inner();\n                    task.set_resp_result(Ok(Resp::Error(\n                        format!(\"{}: {:?}\", FAILED_TO_ACCESS_SOURCE, err).into_bytes(),\n                    )));\n                    continue;", "new": "                    error!(\"Invalid reply of UMSYNC {:?}\", err);", "expect": "C03.D4:umsync-failure"},
 ]
